@@ -737,6 +737,9 @@ func zeroLenValue(v ssa.Value, depth int) bool {
 	switch x := v.(type) {
 	case *ssa.Const:
 		return x.Value == nil
+	case *ssa.MakeSlice:
+		c, ok := constInt(x.Len)
+		return ok && c == 0
 	case *ssa.Slice:
 		if x.High != nil {
 			if c, ok := constInt(x.High); ok && c == 0 {
@@ -783,6 +786,12 @@ func rawLoadAlias(v ssa.Value, raw *types.Var, dstBase ssa.Value) bool {
 // headerGuards extracts, for the conditions that must hold at instruction `at`, canonical
 // descriptors of length and cookie tests on the byte slice root.
 func headerGuards(pr *Prover, at ssa.Instruction, extra ssa.Value) map[string]bool {
+	return headerGuardsX(pr, at, extra, false)
+}
+
+// headerGuardsX: with strict, a condition that is not a length/accessor comparison is kept as an
+// opaque requirement (for IsMessage: anything it demands beyond what Decode establishes is a violation).
+func headerGuardsX(pr *Prover, at ssa.Instruction, extra ssa.Value, strict bool) map[string]bool {
 	out := map[string]bool{}
 	addCond := func(cond ssa.Value, pol bool) {
 		for {
@@ -795,6 +804,9 @@ func headerGuards(pr *Prover, at ssa.Instruction, extra ssa.Value) map[string]bo
 		}
 		b, ok := cond.(*ssa.BinOp)
 		if !ok {
+			if strict {
+				out[fmt.Sprintf("?%s=%v", exprDepth(cond, 0), pol)] = true
+			}
 			return
 		}
 		// length test
@@ -821,6 +833,9 @@ func headerGuards(pr *Prover, at ssa.Instruction, extra ssa.Value) map[string]bo
 		}
 		x, y := desc(b.X), desc(b.Y)
 		if x == "" || y == "" {
+			if strict {
+				out[fmt.Sprintf("?%s=%v", exprDepth(cond, 0), pol)] = true
+			}
 			return
 		}
 		op := b.Op
@@ -895,12 +910,12 @@ func checkIsMessage(r *Run, rc *RuleCtx, cl *closures) {
 				nonFalse++
 				pred := x.Block().Preds[i]
 				pr := newProver(p, isMsg)
-				want = headerGuards(pr, pred.Instrs[len(pred.Instrs)-1], e)
+				want = headerGuardsX(pr, pred.Instrs[len(pred.Instrs)-1], e, true)
 			}
 			okShape = nonFalse == 1
 		case *ssa.BinOp:
 			pr := newProver(p, isMsg)
-			want = headerGuards(pr, ret, x)
+			want = headerGuardsX(pr, ret, x, true)
 			okShape = true
 		}
 	}
